@@ -232,6 +232,12 @@ def run(rep, proj, tier):
     # both sides of the limit are integrals of these kernels: a massive or asymptotic kernel that changes from one evaluation to the
     # next (state kept in a captured container) makes the two sides incomparable whatever their first evaluation looks like
     P.check_pure(rep, proj, "C08.pure", family_filter=lambda c: ".heavy." in c.fq or ".asy." in c.fq or ".intrinsic." in c.fq, floor=60)
+    # neither side of the limit may carry anything over from an earlier evaluation (another kind, another observable, another run in the process)
+    from . import state
+
+    state.check(rep, proj, "C08.state", module_filter=lambda m: m.name.startswith(("yadism.coefficient_functions.asy", "yadism.coefficient_functions.heavy",
+                                                                                  "yadism.coefficient_functions.intrinsic", "yadism.coefficient_functions.kernels",
+                                                                                  "yadism.coefficient_functions.partonic_channel")), floor=1)
     js = jobs(tier)
     outs = sweep.run_cells(_job, js)
     n_cmp = 0
